@@ -51,7 +51,7 @@ def make_dataset(rng, nmin=4, nmax=40, kmax=4, control=None, feature_levels=None
     return Dataset(X, y, g, c)
 
 
-BOUNDS = [("diff", None), ("diff", 0.01), ("diff", 0.05), ("diff", 0.2), ("ratio", (1.0, 0.0)), ("ratio", (0.8, 0.0)),
+BOUNDS = [("diff", None), ("diff", 0.0), ("diff", 0.01), ("diff", 0.05), ("diff", 0.2), ("ratio", (1.0, 0.0)), ("ratio", (0.8, 0.0)),
           ("ratio", (0.5, 0.05)), ("ratio", (0.95, 0.01)), ("ratio", (1.0, 0.1))]
 
 
